@@ -29,7 +29,10 @@ NumUnk == {Unk(TNum, r) : r \in {[null |-> "F", lo |-> PInf, loInc |-> TRUE], [n
                                    [null |-> "U", lo |-> [lm |-> "third"], loInc |-> TRUE, hi |-> [lm |-> "almost1"], hiInc |-> TRUE],
                                    [null |-> "F", lo |-> [lm |-> "malmost1"], loInc |-> TRUE, hi |-> [lm |-> "tenth"], hiInc |-> TRUE],
                                    [null |-> "F", lo |-> [lm |-> "mf64maxp"], loInc |-> TRUE, hi |-> [lm |-> "f64maxp"], hiInc |-> TRUE]}}
-Base(t) == TakeN(AllVals(t), IF Thorough THEN 30 ELSE 10) \cup UnkVals(t) \cup {Unk(t, NoRf)}
+\* collections that may be longer than any limit the decoder applies to what it allocates (1024): a bound may be widened, never lowered
+LongUnk(t) == IF IsCollT(t) THEN {Unk(t, [null |-> "F", maxLen |-> 5000]), Unk(t, [null |-> "U", minLen |-> 2000, maxLen |-> 5000]), Unk(t, [null |-> "U", minLen |-> 1500, maxLen |-> 1500]),
+                                  Unk(t, [null |-> "F", minLen |-> 1025])} ELSE {}
+Base(t) == TakeN(AllVals(t), IF Thorough THEN 30 ELSE 10) \cup UnkVals(t) \cup {Unk(t, NoRf)} \cup LongUnk(t)
            \cup (IF t.k = "number" THEN NumExtra \cup NumUnk ELSE IF t.k = "string" THEN StrExtra ELSE {})
            \cup UNION {TakeN(Weak1(v, FALSE), IF Thorough THEN 12 ELSE 5) : v \in TakeN(Vals(t, W), IF Thorough THEN 8 ELSE 4)}
            \cup UNION {TakeN(WeakN(v, 2, TRUE), 6) : v \in TakeN(Vals(t, W), 3)}
